@@ -1238,6 +1238,23 @@ func emitCodes(e *emitter, order []string, vars map[string]string) {
 
 // ---------------------------------------------------------------- structural facts
 
+// exprString2 renders a statement of a select's comm clause
+func exprString2(st ast.Stmt) string {
+	switch x := st.(type) {
+	case *ast.ExprStmt:
+		return exprString(x.X)
+	case *ast.AssignStmt:
+		var r []string
+		for _, e := range x.Rhs {
+			r = append(r, exprString(e))
+		}
+		return strings.Join(r, ",")
+	case *ast.SendStmt:
+		return exprString(x.Chan) + "<-" + exprString(x.Value)
+	}
+	return ""
+}
+
 func boolLean(b bool) string {
 	if b {
 		return "true"
@@ -1606,6 +1623,108 @@ func emitStruct() {
 		}
 		return res
 	}
+	// client protocol structure
+	inLoopCalls := func(fd *ast.FuncDecl, sel string) (inLoop, outside []string) {
+		if fd == nil {
+			return []string{"unrecognised"}, nil
+		}
+		var loops []*ast.ForStmt
+		ast.Inspect(fd, func(n ast.Node) bool {
+			if fs, ok := n.(*ast.ForStmt); ok {
+				loops = append(loops, fs)
+			}
+			return true
+		})
+		ast.Inspect(fd, func(n ast.Node) bool {
+			if c, ok := n.(*ast.CallExpr); ok {
+				if se, ok := c.Fun.(*ast.SelectorExpr); ok && se.Sel.Name == sel {
+					in := false
+					for _, l := range loops {
+						if c.Pos() >= l.Pos() && c.End() <= l.End() {
+							in = true
+						}
+					}
+					if in {
+						inLoop = append(inLoop, exprString(c))
+					} else {
+						outside = append(outside, exprString(c))
+					}
+				}
+			}
+			return true
+		})
+		return
+	}
+	hsf := findFunc(cli, "Client", "handshake")
+	dwrf := findFunc(cli, "Client", "dwr")
+	a1, a2 := inLoopCalls(hsf, "makeCER")
+	e.f("/-- `makeCER` calls in `handshake`: inside the transmission loop / before it -/\ndef handshakeMakeCER : List String × List String := (%s, %s)\n", strList(a1), strList(a2))
+	a1, _ = inLoopCalls(hsf, "WriteTo")
+	e.f("def handshakeWrites : List String := %s\n", strList(a1))
+	a1, a2 = inLoopCalls(hsf, "Close")
+	e.f("/-- `Close` calls in `handshake`: inside the loop / outside it -/\ndef handshakeCloses : Nat × Nat := (%d, %d)\n", len(a1), len(a2))
+	a1, a2 = inLoopCalls(dwrf, "makeDWR")
+	e.f("def dwrMakeDWR : List String × List String := (%s, %s)\n", strList(a1), strList(a2))
+	a1, _ = inLoopCalls(dwrf, "WriteToStream")
+	e.f("def dwrWrites : List String := %s\n", strList(a1))
+	a1, a2 = inLoopCalls(dwrf, "Close")
+	e.f("def dwrCloses : Nat × Nat := (%d, %d)\n", len(a1), len(a2))
+	// dwr: a non-blocking receive from dwac before the loop (drains a left-over ack)
+	drain := false
+	if dwrf != nil {
+		for _, st := range dwrf.Body.List {
+			if _, isFor := st.(*ast.ForStmt); isFor {
+				break
+			}
+			if sel, ok := st.(*ast.SelectStmt); ok {
+				hasRecv, hasDefault := false, false
+				for _, cc := range sel.Body.List {
+					c := cc.(*ast.CommClause)
+					if c.Comm == nil {
+						hasDefault = true
+					} else if strings.Contains(exprString2(c.Comm), "<-dwac") {
+						hasRecv = true
+					}
+				}
+				if hasRecv && hasDefault {
+					drain = true
+				}
+			}
+		}
+	}
+	e.f("/-- `dwr` discards a left-over ack (non-blocking receive from dwac) before its first DWR -/\ndef dwrDrainsFirst : Bool := %s\n", boolLean(drain))
+	// handleCEA: body wrapped in sync.Once; handleDWA: the send on dwac is in a select with default
+	onceDo := false
+	if fd := findFunc(parseFile("diam/sm/cea.go"), "", "handleCEA"); fd != nil {
+		ast.Inspect(fd, func(n ast.Node) bool {
+			if c, ok := n.(*ast.CallExpr); ok && exprString(c.Fun) == "once.Do" {
+				onceDo = true
+			}
+			return true
+		})
+	}
+	e.f("def ceaHandlerOnce : Bool := %s\n", boolLean(onceDo))
+	nbSend := false
+	if fd := findFunc(parseFile("diam/sm/dwa.go"), "", "handleDWA"); fd != nil {
+		ast.Inspect(fd, func(n ast.Node) bool {
+			if sel, ok := n.(*ast.SelectStmt); ok {
+				hasSend, hasDefault := false, false
+				for _, cc := range sel.Body.List {
+					c := cc.(*ast.CommClause)
+					if c.Comm == nil {
+						hasDefault = true
+					} else if _, ok := c.Comm.(*ast.SendStmt); ok {
+						hasSend = true
+					}
+				}
+				if hasSend && hasDefault {
+					nbSend = true
+				}
+			}
+			return true
+		})
+	}
+	e.f("def dwaSendNonBlocking : Bool := %s\n", boolLean(nbSend))
 	e.f("/-- loop condition of the CER transmission loop in `handshake` -/\ndef handshakeLoopCond : String := %s\n", leanStr(bound("handshake")))
 	e.f("/-- loop condition of the DWR transmission loop in `dwr` -/\ndef dwrLoopCond : String := %s\n", leanStr(bound("dwr")))
 	// Server.Serve: the accept loop
